@@ -55,6 +55,16 @@ pub struct Rw {
 
 const TOKEN_ELEMENTS: [&str; 13] = ["capability", "session-id", "load-error-count", "error-type", "error-tag", "error-severity", "family", "choice-ident", "address", "choice-value", "bad-element", "error-app-tag", "name"];
 
+/// equivalent spellings of the XML declaration of a UTF-8 document
+const DECLS: [&str; 6] = [
+    "<?xml version=\"1.0\" encoding=\"UTF-8\"?>",
+    "<?xml version=\"1.0\"?>",
+    "<?xml version=\"1.0\" encoding=\"utf-8\"?>",
+    "<?xml version='1.0' encoding='utf-8'?>",
+    "<?xml version=\"1.0\" encoding=\"Utf-8\" standalone=\"yes\"?>",
+    "<?xml  version = \"1.0\"  encoding = \"UTF-8\" ?>",
+];
+
 fn index(node: &Node, next: &mut usize, out: &mut Vec<(usize, *const Node)>) {
     let me = *next;
     *next += 1;
@@ -68,7 +78,9 @@ fn index(node: &Node, next: &mut usize, out: &mut Vec<(usize, *const Node)>) {
 pub fn applicable(root: &Node) -> Vec<Rw> {
     let mut nodes = Vec::new();
     index(root, &mut 0, &mut nodes);
-    let mut out = vec![Rw { kind: Kind::Decl, pos: 0 }, Rw { kind: Kind::CommentOutside, pos: 0 }, Rw { kind: Kind::WsOutside, pos: 0 }];
+    // Decl: `pos` selects the spelling of the declaration (see DECLS)
+    let mut out = vec![Rw { kind: Kind::CommentOutside, pos: 0 }, Rw { kind: Kind::WsOutside, pos: 0 }];
+    out.extend((0..DECLS.len()).map(|pos| Rw { kind: Kind::Decl, pos }));
     for (pos, ptr) in nodes {
         // SAFETY: pointers come from the borrowed tree and are used within this call only
         let n = unsafe { &*ptr };
@@ -257,8 +269,8 @@ pub fn serialize(root: &Node, rws: &[Rw], expanded_by_default: &[&str]) -> Strin
         }
     }
     let mut s = Ser { rws, next: 0, out: String::new(), expanded_by_default, hoisted };
-    if rws.iter().any(|r| r.kind == Kind::Decl) {
-        s.out.push_str("<?xml version=\"1.0\" encoding=\"UTF-8\"?>");
+    if let Some(r) = rws.iter().find(|r| r.kind == Kind::Decl) {
+        s.out.push_str(DECLS[r.pos % DECLS.len()]);
     }
     if rws.iter().any(|r| r.kind == Kind::WsOutside) {
         s.out.push_str("\n\n  ");
@@ -313,6 +325,11 @@ pub fn seeds() -> Vec<Seed> {
         Seed { name: "reply:ok", via: Via::Lock, xml: reply("<ok/>"), expanded: &[] },
         Seed { name: "reply:error-full", via: Via::Lock, xml: reply(&err_el("error", true)), expanded: &[] },
         Seed { name: "reply:two-errors", via: Via::Lock, xml: reply(&format!("{}{}", err_el("error", false), err_el("warning", true))), expanded: &[] },
+        // a vendor element inside rpc-error, spelt with its own default namespace (the Prefix rewrite gives the
+        // prefixed spelling), followed by standard leaves; alone and followed by a second error
+        Seed { name: "reply:error-with-vendor-child", via: Via::Lock, xml: reply("<rpc-error><error-type>protocol</error-type><error-tag>operation-failed</error-tag><error-severity>error</error-severity><daemon xmlns=\"urn:example:vendor\">mgd</daemon><error-message>commit failed</error-message></rpc-error>"), expanded: &[] },
+        Seed { name: "reply:two-errors-with-vendor-child", via: Via::Lock, xml: reply(&format!("<rpc-error><error-type>protocol</error-type><error-tag>operation-failed</error-tag><error-severity>error</error-severity><daemon xmlns=\"urn:example:vendor\">mgd</daemon></rpc-error>{}", err_el("error", false))), expanded: &[] },
+        Seed { name: "reply:load-error-with-vendor-child", via: Via::Load, xml: reply(&format!("<load-configuration-results><rpc-error><error-type>protocol</error-type><error-tag>operation-failed</error-tag><error-severity>error</error-severity><source-daemon xmlns=\"urn:example:vendor\">mgd</source-daemon><error-message>bad</error-message></rpc-error>{}<load-error-count>2</load-error-count></load-configuration-results>", err_el("error", false))), expanded: &[] },
         Seed { name: "reply:data", via: Via::Get, xml: reply("<data><x>1</x></data>"), expanded: &[] },
         Seed { name: "reply:data-empty", via: Via::Get, xml: reply("<data></data>"), expanded: &["data"] },
         Seed { name: "reply:data-error", via: Via::Get, xml: reply(&err_el("error", false)), expanded: &[] },
@@ -443,7 +460,7 @@ pub fn run(report: &mut Report) {
                         continue;
                     }
                 }
-                let what: Vec<String> = rws.iter().map(|r| format!("{:?}@{}", r.kind, element_at(&root, r.pos))).collect();
+                let what: Vec<String> = rws.iter().map(|r| if r.kind == Kind::Decl { format!("Decl#{}", r.pos) } else { format!("{:?}@{}", r.kind, element_at(&root, r.pos)) }).collect();
                 let family = seed.name.split(':').next().unwrap_or("");
                 // the three "markup inside a token-valued leaf" rewrites fail alike for every leaf (all of them
                 // are read as raw text spans): one finding class per message family and rewrite kind
